@@ -260,4 +260,110 @@ theorem reaction_closing_first (su : Setup) (reacts : Reactions) (fuel : Nat) (o
     runQueue su reacts (fuel + 1) (.op o :: rest) st k seen = runQueue su reacts fuel (dl.map QItem.deliver ++ rest) st2 k seen := by
   simp [runQueue, hop]
 
+/-! ### exactly once, with arbitrary observer reactions -/
+
+/-- the deliveries waiting in a queue -/
+def pending : List QItem → List Delivery
+  | [] => []
+  | .deliver d :: rest => d :: pending rest
+  | .op _ :: rest => pending rest
+
+theorem pending_append (a b : List QItem) : pending (a ++ b) = pending a ++ pending b := by
+  induction a with
+  | nil => rfl
+  | cons x xs ih => cases x <;> simp [pending, ih]
+
+theorem pending_deliver (dl : List Delivery) : pending (dl.map QItem.deliver) = dl := by
+  induction dl with
+  | nil => rfl
+  | cons d ds ih => simp [pending, ih]
+
+theorem pending_ops (os : List Op) : pending (os.map QItem.op) = [] := by
+  induction os with
+  | nil => rfl
+  | cons o os ih => simp [pending, ih]
+
+/-- the run of the queue ended because the queue was empty (not because the fuel ran out) -/
+def queueDone (su : Setup) (reacts : Reactions) : Nat → List QItem → AppState → Nat → Bool
+  | 0, stack, _, _ => stack.isEmpty
+  | _ + 1, [], _, _ => true
+  | f + 1, .deliver _ :: rest, st, k =>
+    queueDone su reacts f ((reacts.filter (fun r => r.1 == k)).map (fun r => QItem.op r.2) ++ rest) st (k + 1)
+  | f + 1, .op o :: rest, st, k =>
+    match applyOp su st o with
+    | none => true
+    | some (st', dl) => queueDone su reacts f (dl.map QItem.deliver ++ rest) st' k
+
+/-- (7) **every** queued event — the frame's action events and every closing event produced by a deactivation that an
+    observer requested while the queue was being applied — is delivered **exactly once**: the final delivery sequence
+    extends what was seen before by a list `processed` that contains all pending events in their original relative
+    order, and the delivery counter advanced by exactly `processed.length` (nothing is delivered twice, nothing is
+    dropped), for arbitrary reaction scripts. Closing events may overtake the rest of the frame's events (they are
+    inserted in front), which is why this is a sublist and not a prefix statement. -/
+theorem queue_exactly_once (su : Setup) (reacts : Reactions) :
+    ∀ (fuel : Nat) (stack : List QItem) (st : AppState) (k : Nat) (seen : List Delivery) st' k' seen',
+      runQueue su reacts fuel stack st k seen = some (st', k', seen') →
+      queueDone su reacts fuel stack st k = true →
+      ∃ processed, seen' = seen ++ processed ∧ (pending stack).Sublist processed ∧ k' = k + processed.length := by
+  intro fuel
+  induction fuel with
+  | zero =>
+    intro stack st k seen st' k' seen' h hd
+    simp only [queueDone, List.isEmpty_iff] at hd
+    subst hd
+    simp only [runQueue, Option.some.injEq, Prod.mk.injEq] at h
+    obtain ⟨_, rfl, rfl⟩ := h
+    exact ⟨[], by simp, by simp [pending], by simp⟩
+  | succ n ih =>
+    intro stack st k seen st' k' seen' h hd
+    cases stack with
+    | nil =>
+      simp only [runQueue, Option.some.injEq, Prod.mk.injEq] at h
+      obtain ⟨_, rfl, rfl⟩ := h
+      exact ⟨[], by simp, by simp [pending], by simp⟩
+    | cons item rest =>
+      cases item with
+      | deliver d =>
+        simp only [runQueue] at h
+        simp only [queueDone] at hd
+        obtain ⟨p, hp1, hp2, hp3⟩ := ih _ _ _ _ _ _ _ h hd
+        refine ⟨d :: p, by simp [hp1], ?_, by simp [hp3]; omega⟩
+        simp only [pending]
+        apply List.Sublist.cons₂
+        rw [pending_append] at hp2
+        have : pending ((reacts.filter (fun r => r.1 == k)).map (fun r => QItem.op r.2)) = [] := by
+          have hgen : ∀ (l : List (Nat × Op)), pending (l.map (fun r => QItem.op r.2)) = [] := by
+            intro l; induction l with
+            | nil => rfl
+            | cons x xs ih => simp [pending, ih]
+          exact hgen _
+        rw [this, List.nil_append] at hp2
+        exact hp2
+      | op o =>
+        simp only [runQueue] at h
+        simp only [queueDone] at hd
+        cases hop : applyOp su st o with
+        | none => simp [hop] at h
+        | some x =>
+          obtain ⟨st2, dl⟩ := x
+          simp only [hop] at h hd
+          obtain ⟨p, hp1, hp2, hp3⟩ := ih _ _ _ _ _ _ _ h hd
+          refine ⟨p, hp1, ?_, hp3⟩
+          simp only [pending]
+          rw [pending_append, pending_deliver] at hp2
+          exact List.Sublist.trans (List.sublist_append_right dl (pending rest)) hp2
+
+/-- … and the closing events of an observer-requested deactivation are themselves among the delivered ones -/
+theorem queue_closing_delivered (su : Setup) (reacts : Reactions) (fuel : Nat) (o : Op) (rest : List QItem)
+    (st st2 : AppState) (dl : List Delivery) (k : Nat) (seen : List Delivery) st' k' seen'
+    (hop : applyOp su st o = some (st2, dl))
+    (h : runQueue su reacts (fuel + 1) (.op o :: rest) st k seen = some (st', k', seen'))
+    (hd : queueDone su reacts (fuel + 1) (.op o :: rest) st k = true) :
+    ∃ processed, seen' = seen ++ processed ∧ (dl ++ pending rest).Sublist processed := by
+  simp only [runQueue, hop] at h
+  simp only [queueDone, hop] at hd
+  obtain ⟨p, hp1, hp2, _⟩ := queue_exactly_once su reacts fuel _ _ _ _ _ _ _ h hd
+  rw [pending_append, pending_deliver] at hp2
+  exact ⟨p, hp1, hp2⟩
+
 end BEI.Props.C02
